@@ -128,6 +128,12 @@ pub static NOEXEC_CALLS: Mutex<Vec<(u64, u64)>> = Mutex::new(Vec::new());
 pub fn noexec_take() -> Vec<(u64, u64)> {
     NOEXEC_CALLS.lock().map(|mut v| std::mem::take(&mut *v)).unwrap_or_default()
 }
+/// n > 0: just before the n-th mmap the library makes from now on reaches the kernel, somebody
+/// else (another thread of the program) maps the hinted page for itself and writes RACE_MAGIC
+/// into it
+pub static RACE_MAP_IN: AtomicI64 = AtomicI64::new(0);
+pub static RACED: Mutex<Vec<u64>> = Mutex::new(Vec::new());
+pub const RACE_MAGIC: u64 = 0x5AFE_C0DE_0BAD_F00D;
 /// n > 0: the n-th munmap the library makes from now on fails (EINVAL, nothing is unmapped)
 pub static MUNMAP_FAIL_IN: AtomicI64 = AtomicI64::new(0);
 /// (address, length) of the munmap calls that were made to fail (the harness releases them later)
@@ -153,6 +159,7 @@ pub fn plan_reset() {
     MPROTECT_FAIL_AT.store(0, SeqCst);
     MPROTECT_FAIL_PAGE.store(0, SeqCst);
     MUNMAP_FAIL_IN.store(0, SeqCst);
+    RACE_MAP_IN.store(0, SeqCst);
     DENY_WX.store(0, SeqCst);
     let _ = noexec_take();
     MMAP_RUN.store(0, SeqCst);
@@ -271,6 +278,21 @@ pub unsafe extern "C" fn mmap(addr: *mut libc::c_void, len: libc::size_t, prot: 
     }
     let hint = addr as usize;
     let page = hint & !0xFFF;
+    let race = RACE_MAP_IN.load(SeqCst);
+    if race > 0 && hint != 0 && MODE.load(SeqCst) == MODE_PASS {
+        RACE_MAP_IN.store(race - 1, SeqCst);
+        if race == 1 {
+            let r = sys_mmap(page, 4096, libc::PROT_READ | libc::PROT_WRITE, libc::MAP_PRIVATE | libc::MAP_ANONYMOUS | MAP_FIXED_NOREPLACE as i32, -1, 0);
+            if r == page {
+                *(page as *mut u64) = RACE_MAGIC;
+                if let Ok(mut v) = RACED.try_lock() {
+                    v.push(page as u64);
+                }
+            } else if r != MAP_FAILED {
+                sys_munmap(r, 4096);
+            }
+        }
+    }
     let ret = match MODE.load(SeqCst) {
         MODE_PASS => sys_mmap(hint, len, prot, flags, fd, off),
         MODE_GRANT_ONLY => {
